@@ -1,6 +1,7 @@
 //! Conformance harness for the TLA+ specifications in /verif/specs.
 //! Sub-commands are selected by the first argument; see /verif/check.
 mod bench;
+mod queue;
 mod seqds;
 mod simcore;
 
@@ -14,6 +15,7 @@ fn main() {
         "simcore" => simcore::main(&args[2..]),
         "seqds" => seqds::main(&args[2..]),
         "bench" => bench::main(&args[2..]),
+        "queue" => queue::main(&args[2..]),
         other => {
             eprintln!("unknown engine {}", other);
             std::process::exit(2);
